@@ -339,7 +339,7 @@ def judge_msg(c):
     fails = []
     names = msg_case_names(c)
     first_add, written, del_req, purged_after, relayed, set_done = {}, {}, set(), set(), {}, set()
-    unflushed, purged_gone, f41 = set(), set(), set()
+    pending_w, inflight_w, purged_gone, f41 = set(), set(), set(), set()
     del_pending, del_flushed, swapped_dels = set(), set(), set()
     add_count, first_is_add = {}, {}
     bunt = c.engine == "bunt"
@@ -363,7 +363,7 @@ def judge_msg(c):
             first_is_add.setdefault((q, mid), t == "A")
             first_add.setdefault((q, mid), i)
             written.setdefault((q, mid), set()).add(data)
-            unflushed.add((q, mid))
+            pending_w.add((q, mid))
             purged_gone.discard((q, mid))
             del_pending.discard((q, mid))
             del_flushed.discard((q, mid))
@@ -374,30 +374,35 @@ def judge_msg(c):
         elif t == "K" or out == "PANIC":
             del_pending.clear()
             swapped_dels.clear()
+            pending_w.clear()
+            inflight_w.clear()
         elif t == "T":
             del_flushed |= del_pending | swapped_dels
             del_pending.clear()
             swapped_dels.clear()
+            pending_w.clear()
+            inflight_w.clear()
         elif t == "S":
             swapped_dels |= del_pending
             del_pending.clear()
+            inflight_w |= pending_w
+            pending_w.clear()
         elif t == "B" and out != "PANIC":
             del_flushed |= swapped_dels
             swapped_dels.clear()
+            inflight_w.clear()
         elif t == "P":
             q = unhex(f[1])
             for (q2, mid) in first_add:
                 if q2 == q:
                     purged_after.add((q2, mid))
                     purged_gone.add((q2, mid))
-                    if (q2, mid) in unflushed:
+                    if (q2, mid) in pending_w or (q2, mid) in inflight_w:
                         f41.add((q2, mid))
         # batches and relays
         for a in atoms:
             if a[0] == 1:
                 set_done.add(a[1][0])
-                for o in [o for o in unflushed if doc_msg_key(*o).hex() == a[1][0]]:
-                    unflushed.discard(o)
             elif a[0] == 3:
                 k = a[1][0]
                 if k not in set_done:
